@@ -54,8 +54,13 @@ def read_tables(repo=None):
     mods = [n.right.value for n in ast.walk(d7)
             if isinstance(n, ast.BinOp) and isinstance(n.op, ast.Mod) and isinstance(n.right, ast.Constant) and isinstance(n.right.value, int)]
     if len(mods) != 1:
-        raise KeyError("expected exactly one `% <int>` in decrypt_type_7, found %r" % (mods,))
-    out["wrap"] = mods[0]
+        # the wrap of the key index is no longer written as `% <int>`: the tie is broken (reported through TabC17.v's
+        # tab_unread marker); the reference value keeps the model runnable so that the correspondence can still look for a
+        # concrete failing input
+        out["unread"] = out.get("unread", []) + ["wrap: expected exactly one `%% <int>` in decrypt_type_7, found %r" % (mods,)]
+        out["wrap"] = len(out["xlat"])
+    else:
+        out["wrap"] = mods[0]
     # pwd_check
     pc = _method(cls, "pwd_check")
     out["invalid_chars"] = ast.literal_eval(_assigned(pc, "invalid_chars"))
@@ -99,6 +104,8 @@ def generate():
             "Definition tab_t8_saltlen : nat := %d%%nat." % t["t8_saltlen"],
             "Definition tab_t9_params : list N := [%s]%%N.   (* scrypt N, r, p, dklen *)" % "; ".join(str(x) for x in t["t9_params"]),
             "Definition tab_t9_saltlen : nat := %d%%nat." % t["t9_saltlen"],
+            "(* constants that could not be read from the source (the reference value was used): the property file checks that this list is empty *)",
+            "Definition tab_unread : list nat := [%s]%%nat.   (* %s *)" % ("; ".join("1" for _ in t.get("unread", [])), _cmt(" | ".join(t.get("unread", [])) or "none")),
         ]
         return {"TabC17.v": "\n".join(body) + "\n"}
     except Exception as e:  # fail closed, but only for C17
